@@ -48,6 +48,9 @@ type c17Step struct {
 	Sess   int
 	Origin string // "" absent, "ok", "bad", "re"
 	JSONP  bool
+	// EmptySid: the handshake request carries an empty sid parameter ("...&sid="): the server takes it for the
+	// handshake it is (no session is named), so its response is that session's handshake response
+	EmptySid bool
 }
 
 type c17Case struct {
@@ -153,7 +156,7 @@ func genC17(rt *rapid.T, knownCookie bool, col *Collector) c17Case {
 	}
 	nsess := rapid.IntRange(1, 3).Draw(rt, "sessions")
 	for i := 0; i < nsess; i++ {
-		c.Steps = append(c.Steps, c17Step{Kind: "handshake", Sess: i, Origin: rapid.SampledFrom([]string{"", "ok", "re", "bad"}).Draw(rt, "hsOrigin"), JSONP: rapid.IntRange(0, 3).Draw(rt, "jsonp") == 0})
+		c.Steps = append(c.Steps, c17Step{Kind: "handshake", Sess: i, Origin: rapid.SampledFrom([]string{"", "ok", "re", "bad"}).Draw(rt, "hsOrigin"), JSONP: rapid.IntRange(0, 3).Draw(rt, "jsonp") == 0, EmptySid: rapid.IntRange(0, 3).Draw(rt, "emptySid") == 0})
 	}
 	n := rapid.IntRange(0, 8).Draw(rt, "nsteps")
 	for i := 0; i < n; i++ {
@@ -344,8 +347,13 @@ func runC17(c c17Case) (fail string, stats map[string]bool) {
 		switch st.Kind {
 		case "handshake":
 			pc := &PollClient{W: w, O: ClientOpts{Rev: 4, Extra: hdr, JSONP: st.JSONP, J: "5", B64: st.JSONP, PreHeader: c.Pre}}
+			if st.EmptySid {
+				pc.O.ExtraQuery = "sid="
+				stats["handshake-with-an-empty-sid-parameter"] = true
+			}
 			ex := pc.StartHandshake()
 			Settle()
+			pc.O.ExtraQuery = ""
 			if err := pc.FinishHandshake(); err != nil {
 				return fmt.Sprintf("%s: %v", what, err), stats
 			}
@@ -518,7 +526,7 @@ func TestC17Headers(t *testing.T) {
 			rt.Fatalf("%v: %s", c, clipStr(res.Leak, 1500))
 		}
 	})
-	req := []string{"headers-preset-by-the-host-application", "request-after-handshake", "response-after-close", "cors-response", "non-string-origin-policy", "preflight", "preflight-continue", "compressed-poll"}
+	req := []string{"headers-preset-by-the-host-application", "request-after-handshake", "response-after-close", "cors-response", "non-string-origin-policy", "preflight", "preflight-continue", "compressed-poll", "handshake-with-an-empty-sid-parameter"}
 	if !known {
 		req = append(req, "cookie-on-handshake")
 	}
